@@ -63,3 +63,19 @@ def at(arr, letters, lab):
 
 def lens_key(lens):
     return "".join(f"{l}{n}" for l, n in sorted(lens.items()))
+
+
+def relayout(vals, which):
+    """same labels, other memory layout: 0 = C-contiguous copy, 1 = column-major, 2 = a strided view of a wider buffer"""
+    import numpy as np
+
+    if getattr(vals, "ndim", 0) < 1 or which == 0:
+        return vals
+    if which == 1:
+        if vals.ndim < 2:
+            return vals
+        return np.asfortranarray(vals).view(type(vals))
+    wide = np.empty(vals.shape[:-1] + (2 * vals.shape[-1],), dtype=vals.dtype).view(type(vals))
+    wide[..., ::2] = vals
+    wide[..., 1::2] = vals[..., ::-1] if vals.shape[-1] else vals
+    return wide[..., ::2]
